@@ -59,13 +59,15 @@ class TLCResult(dict):
 def run(module, consts=None, invariants=(), spec='Spec', properties=(), constraint=None,
         action_constraint=None, postcondition=None, view=None, simulate=None, workers=None,
         timeout=1800, on_export=None, tags=('EXPORT',), env=None, coverage=False,
-        deadlock=False, seed=None, extra_defs='', label=None, depth_first=False):
+        deadlock=False, seed=None, extra_defs='', label=None, depth_first=False, extra_files=()):
     """Returns TLCResult(generated, distinct, depth, errors, ok, wall_s, exports, coverage...)."""
     consts = consts or {}
     n = next(_counter)
     wd = common.subdir('tlc-%d-%d' % (os.getpid(), n))
     for f in glob.glob(os.path.join(common.SPEC, '*.tla')):
         shutil.copy(f, wd)
+    for f in extra_files:
+        shutil.copy(os.path.join(common.SPEC, f), wd)
     root = 'Run%d_%s' % (n, module)
     defs, cfg = [], []
     cfg.append('SPECIFICATION %s' % spec)
